@@ -1,9 +1,9 @@
 CONSTANTS
   FAMILY = "one"
-  D = 4
-  NV = 1
-  DeltaVecs <- DV_std
-  Dists <- Dists_two
+  D = 2
+  NV = 3
+  DeltaVecs <- DV_two
+  Dists <- Dists_all
   Lim2 <- Lim2_none
   MapIds = {1}
   Conds <- Conds_quick
